@@ -11,14 +11,15 @@ import (
 
 // Sized-array cases, shared by C05 (no panic), C09/C10 (value or error per the model) and C16 (JSON
 // closure): every built-in function in ten call shapes on arrays whose length sits on and around the
-// usual internal thresholds (insertion-sort cut-offs, block sizes, pooled buffers), in eleven element
+// usual internal thresholds (insertion-sort cut-offs, block sizes, pooled buffers), in sixteen element
 // patterns (homogeneous, one odd element first / in the middle / last, objects with a consistent or an
-// inconsistent key, all types mixed, all keys equal, nested).
+// inconsistent key, all types mixed, all keys equal, nested, already ascending, descending, runs of ties,
+// strings that are prefixes of each other).
 
 var sizedLensQuick = []int{0, 1, 2, 3, 11, 12, 13, 15, 16, 17, 31, 32, 33, 63, 64, 65, 127, 128, 129, 192, 256, 1000}
 var sizedLensThorough = []int{255, 257, 511, 512, 513, 1024, 4095, 4096, 4097, 10000}
 
-const sizedPatterns = 11
+const sizedPatterns = 16
 const sizedForms = 10
 
 var sizedFnNames []string
@@ -72,8 +73,22 @@ func sizedArray(n, pattern int) []interface{} {
 			a[i] = []interface{}{num, str, true, nil, []interface{}{num}, map[string]interface{}{"k": num}, false, ""}[i%8]
 		case 9: // all keys equal: order of equal elements is observable
 			a[i] = map[string]interface{}{"k": float64(1), "v": float64(i)}
-		default:
+		case 10:
 			a[i] = []interface{}{num}
+		case 11: // already ascending
+			a[i] = float64(i) - float64(n)/2
+		case 12: // descending
+			a[i] = float64(n) - float64(i)
+		case 13: // few distinct keys, many ties, in runs
+			a[i] = map[string]interface{}{"k": float64((i / 3) % 2), "v": float64(i)}
+		case 14: // strings that are prefixes of each other, duplicates, multi-byte
+			a[i] = []string{"a", "ab", "abc", "", "ab", "é", "e\u0301", "abcd", "b", "a"}[(i*7)%10]
+		default: // descending keys with ties at the end
+			k := float64(n - i)
+			if i >= n-3 {
+				k = 0
+			}
+			a[i] = map[string]interface{}{"k": k, "v": float64(i)}
 		}
 	}
 	return a
